@@ -11,7 +11,8 @@ from checks import pipecommon as pc
 
 
 def cfg(size, skel=0):
-    return vf.cfg_consts(MaxSize=size, Skel=skel, FreeVars=0, MaxIdx=3, TyFuel=400, Formers={"type", "int", "bool", "true", "lit", "var", "lam", "pi", "app", "bin", "neg", "if", "let1"},
+    formers = {"lit", "var", "app", "bin"} if skel == 3 else {"type", "int", "bool", "true", "lit", "var", "lam", "pi", "app", "bin", "neg", "if", "let1"}
+    return vf.cfg_consts(MaxSize=size, Skel=skel, FreeVars=0, MaxIdx=3, TyFuel=400, Formers=formers,
                          Ops={"sum", "lt"}, Lits={1}) + "INIT SInit\nNEXT BNext\nINVARIANTS Emit Emit2\nCHECK_DEADLOCK FALSE\n"
 
 
@@ -88,11 +89,12 @@ def run(c):
     open(tr, "w").close()
     # closed hosts, and hosts below one / two binders (bodies that mention variables bound outside the punched region)
     for skel, total, what in ((0, size, "all well-typed programs <= %d nodes" % size), (1, size + 2, "(x : type) => body, body <= %d nodes" % size),
-                              (2, size + 2, "(x : type) => (y : type) => body, body <= %d nodes" % (size - 2))):
+                              (2, size + 2, "(x : type) => (y : type) => body, body <= %d nodes" % (size - 2)),
+                              (3, 11, "(g : int -> int) => body over g, literals, application and +, body <= 7 nodes")):
         st = vf.tlc_generate("MC_Punch", cfg(total, skel), "punch-%d-%d" % (skel, total), timeout=6000, workers=14)
         c.add_tlc(st, "punched pairs from %s; generation" % what)
         trk = os.path.join(d, "trace-%d.ndjson" % skel)
-        vf.gv(["record-unify", st["out"], trk, summ], timeout=3000, env={"GV_UNIFY_THIN": "4"} if (c.quick and skel >= 1) else None)
+        vf.gv(["record-unify", st["out"], trk, summ], timeout=3000, env={"GV_UNIFY_THIN": "8" if skel == 3 else "4"} if (c.quick and skel >= 1) else None)
         s = json.load(open(summ))
         c.cov["unify-skel%d" % skel] = {k: s[k] for k in s if k != "crashed"}
         c.cov["inconclusive"] += s["crashes"]
